@@ -13,6 +13,37 @@ def _ob(name, pc, goal, props=("C03", "C14")):
     return ob
 
 
+def arith_obligations(reg):
+    """Each registered arithmetic lemma, proved for all integers in isolation."""
+    from .engine import Engine, State, Frame
+    from .verifier import Verifier
+    out = []
+    for name, (params, hyps, concl, props) in reg.arith_lemmas.items():
+        eng = Verifier.__new__(Verifier)
+        Engine.__init__(eng, None, reg, None, _Dummy(), concrete=False)
+        st = State()
+        vals = {p: z3.Int("L_%s_%s" % (name, p)) for p in params}
+        st.frames = [Frame(dict(vals), None, None)]
+        st.spec_mode = 1
+        hs = []
+        for hyp in (hyps if isinstance(hyps, (list, tuple)) else [hyps]):
+            h = eng.ev_spec(hyp, st)
+            st.assume(h)      # in order: divisors known positive get z3's native div/mod encoding
+            hs.append(z3.BoolVal(True) if h is True else h)
+        c = eng.ev_spec(concl, st)
+        out.append(_ob("lemma.arith.%s" % name, hs,
+                       z3.BoolVal(c) if isinstance(c, bool) else c, props=props or ("C01",)))
+    return out
+
+
+class _Dummy:
+    globals = {}
+    props = ()
+    hooks = None
+    frame = None
+    locals = {}
+
+
 def obligations(reg):
     if "CNT" not in reg.spec_functions:
         return []
@@ -42,4 +73,21 @@ def obligations(reg):
     out.append(_ob("lemma.CNT.all#base", defs, CNT(a, 0, v) == 0))
     out.append(_ob("lemma.CNT.all#step", defs + [k >= 0, z3.Implies(all_h(k), CNT(a, k, v) == k),
                                                   all_h(k + 1)], CNT(a, k + 1, v) == k + 1))
+    # positive: for a fixed witness i0 with a[i0] == v, induction on k > i0
+    w = z3.Int("w0")
+    # (uses the bounds lemma, proved above, at k = w)
+    out.append(_ob("lemma.CNT.positive#base", defs + [0 <= w, z3.Select(a, w) == v, B(w)],
+                   CNT(a, w + 1, v) >= 1))
+    out.append(_ob("lemma.CNT.positive#step", defs + [0 <= w, k > w, CNT(a, k, v) >= 1],
+                   CNT(a, k + 1, v) >= 1))
+    # partition
+    v2 = z3.Int("v20")
+
+    def part_h(kk):
+        return z3.ForAll([i], z3.Implies(z3.And(0 <= i, i < kk),
+                                         z3.Or(z3.Select(a, i) == v, z3.Select(a, i) == v2)))
+    out.append(_ob("lemma.CNT.partition#base", defs + [v != v2], CNT(a, 0, v) + CNT(a, 0, v2) == 0))
+    out.append(_ob("lemma.CNT.partition#step",
+                   defs + [v != v2, k >= 0, z3.Implies(part_h(k), CNT(a, k, v) + CNT(a, k, v2) == k),
+                           part_h(k + 1)], CNT(a, k + 1, v) + CNT(a, k + 1, v2) == k + 1))
     return out
